@@ -137,8 +137,8 @@ class RustMagicNumberAnalyzer(RustBaseAnalyzer):
 
         current = node.parent
         while current is not None:
-            if current.type in ("const_item", "static_item"):
-                return True
+            if current.type in ("const_item", "static_item", "enum_variant"):
+                return True  # enum_variant: an explicit discriminant (Low = 42)
             current = current.parent
         return False
 
